@@ -234,9 +234,9 @@ SCENARIOS = dict(
     C10=dict(quick=['gauss_s', 'b7_update', 'half', 'gauss_d', 'nlb'],
              thorough=['gauss', 'gauss_s', 'gauss_d', 'b7_update', 'half', 'b1', 'two', 'wrap_net',
                        'blob_int_vec', 'pool_l3']),
-    C11=dict(quick=['gauss_s', 'blob_array_pool', 'wrap_net', 'pool_l3'],
+    C11=dict(quick=['gauss_s', 'blob_array_pool', 'wrap_net', 'pool_l3', 'nuisance'],
              thorough=['gauss', 'gauss_s', 'gauss_net', 'blob_array_pool', 'pool_l3', 'wrap_net',
-                       'two', 'nofile', 'blob_two_obj']),
+                       'two', 'nofile', 'blob_two_obj', 'nuisance', 'nuisance3_net', 'half']),
     C12=dict(quick=['gauss_t', 'gauss_d', 'wrap_net', 'blob_two_obj', 'empty_d:nshell'],
              thorough=['gauss', 'gauss_t', 'gauss_d', 'b7_update', 'b1', 'two', 'half', 'wrap_net',
                        'blob_float', 'blob_two_obj', 'gauss_net', 'empty', 'empty_d']),
@@ -612,6 +612,8 @@ def run(prop, tier):
     det = allres[:len(det_jobs)]
     xres = allres[len(det_jobs):] + [_any_job(*j) for j in main_jobs]
     n_det = 0
+    det_viol = []
+    first_scn = {s.name: s for s in scns}
     for i, name in enumerate(first):
         r = first[name]
         a, b = det[2 * i], det[2 * i + 1]
@@ -619,10 +621,18 @@ def run(prop, tier):
         if a != b or a != ref:
             k = next((j for j in range(min(len(a), len(b), len(ref)))
                       if not (a[j] == b[j] == ref[j])), -1)
+            if prop == 'C11':
+                # for C11 this IS the property: same seed and settings, different result
+                det_viol.append(Violation(
+                    'C11', 'same-seed:fresh-processes-differ',
+                    'scenario {}: two samplers with the same seed and settings (two fresh processes '
+                    'and the explorer) reach different states from batch {} on'.format(name, k),
+                    dict(kind='det', scenario=dict(first_scn[name]), depth=len(a) - 1)))
+                continue
             raise core.Inconclusive(
                 'HARNESS-NONDETERMINISM scenario={} first differing depth={}'.format(name, k))
         n_det += 2
-    violations = []
+    violations = list(det_viol)
     for r, s in zip(results, scns):
         violations.extend(r['violations'])
         for oe in r['observation_errors']:
@@ -705,6 +715,10 @@ def replay(prop, path):
         out = _three_ways_job(r['scenario'])['violations']
     elif kind == 'checkpoints':
         out = _checkpoints_job(prop, r['scenario'])['violations']
+    elif kind == 'det':
+        a = _det_job(r['scenario'], r['depth'], 0)
+        b = _det_job(r['scenario'], r['depth'], 1)
+        out = [Violation(prop, rep['signature'], 'fresh-process replays differ')] if a != b else []
     elif kind == 'terminal':
         scn = _mk(r['scenario'])
         oa = _path_obs(scn, r['path'])
